@@ -284,9 +284,10 @@ func panicKey(msg string, stack []byte) string {
 	for i, l := range lines {
 		if strings.Contains(l, "github.com/hashicorp/serf/") && !strings.Contains(l, "verifsim") && i+1 < len(lines) {
 			fn := strings.TrimSpace(l)
-			if k := strings.Index(fn, "("); k > 0 {
+			if k := strings.LastIndex(fn, "("); k > 0 { // the argument list
 				fn = fn[:k]
 			}
+			fn = strings.NewReplacer("(*", "", ")", "").Replace(fn)
 			if j := strings.LastIndex(fn, "/"); j >= 0 {
 				fn = fn[j+1:]
 			}
